@@ -9,10 +9,9 @@ Open Scope string_scope.
    Response names the provider as issuer, restricts the audience to the requester, carries a bearer confirmation
    with the chosen Recipient / InResponseTo and the expiry issue time + policy lifetime of that requester in both
    places, and releases the identity; the name identifier is the supplied one, else has the requested format,
-   else the format the policy configures for the requester — the last for every call whose user has no
-   identifier stored under the qualifier in force (outside of that: open finding C09-F2). *)
-Theorem c09_scope : forall x r, create x = Issued r -> scope x r /\ (guard x -> nameid_ok x r).
-Proof. intros x r H. split; [exact (scope_holds x r H)|intros G; exact (nameid_holds x r G H)]. Qed.
+   else the format the policy configures for the requester — whatever the identifier store holds (no guard). *)
+Theorem c09_scope : forall x r, create x = Issued r -> scope x r /\ nameid_ok x r.
+Proof. intros x r H. split; [exact (scope_holds x r H)|exact (nameid_holds x r H)]. Qed.
 Print Assumptions c09_scope.
 
 (* C09 sign: the Response and/or the assertion are signed exactly as argument > configuration > default (not
@@ -21,8 +20,8 @@ Theorem c09_sign : forall x r, create x = Issued r -> signed_as_demanded x r.
 Proof. exact sign_holds. Qed.
 Print Assumptions c09_sign.
 
-(* the whole property on the outcome of every call inside the guard, refusals included *)
-Theorem c09_spec : forall x, guard x -> spec x (create x).
+(* the whole property on the outcome of every call, refusals included *)
+Theorem c09_spec : forall x, spec x (create x).
 Proof. exact spec_holds. Qed.
 Print Assumptions c09_spec.
 
@@ -71,22 +70,28 @@ Proof.
 Qed.
 Print Assumptions c09_policy_lookup.
 
-(* outside the guard the name-identifier clause fails: open finding C09-F2 *)
-Theorem c09_f2_refuted : exists x, ~ spec x (create x) /\ ~ guard x /\ own_namespace x.
-Proof. exists witness_f2. split; [exact f2_refuted|exact f2_outside]. Qed.
-Print Assumptions c09_f2_refuted.
-
 (* C09-F1, repaired by d41562bb: the behaviour before the repair (format looked up under a foreign
    SPNameQualifier) violated the property on an input with a fresh store; the repaired code satisfies it there *)
 Theorem c09_f1_v0_refuted :
   exists x, ~ spec x (create_v0 x) /\ store_fresh x /\ ~ own_namespace x /\ requested_format x = None
-            /\ guard x /\ spec x (create x).
+            /\ spec x (create x).
 Proof.
   exists witness_f1. split; [exact f1_v0_refuted|].
-  destruct f1_outside as (A & B & C). destruct f1_now_holds as (G & S).
-  split; [exact A|split; [exact B|split; [exact C|split; [exact G|exact S]]]].
+  destruct f1_outside as (A & B & C). split; [exact A|split; [exact B|split; [exact C|apply spec_holds]]].
 Qed.
 Print Assumptions c09_f1_v0_refuted.
+
+(* C09-F2, repaired by 9a92c673: the behaviour before the repair (store searched without the format in force)
+   violated the property on an input whose store holds an earlier identifier of another format, in the
+   requester's own namespace and without a requested Format; the repaired code satisfies it there *)
+Theorem c09_f2_v0_refuted :
+  exists x, ~ spec x (create_f2_v0 x) /\ ~ store_fresh x /\ own_namespace x /\ requested_format x = None
+            /\ spec x (create x).
+Proof.
+  exists witness_f2. split; [exact f2_v0_refuted|].
+  destruct f2_outside as (A & B & C). split; [exact A|split; [exact B|split; [exact C|apply spec_holds]]].
+Qed.
+Print Assumptions c09_f2_v0_refuted.
 
 (* regenerated-table obligation: the defaults in the source are the documented ones *)
 Theorem c09_defaults :
